@@ -101,6 +101,17 @@ def gen_key(rng, risky_p):
     return s.strip() or 'k'
 
 
+def _distinct_keys(pairs):
+    """A file holds str(key): the int 7 and the string '7' are one key there (two dictionary entries would be merged)."""
+    seen, out = set(), []
+    for k, v in pairs:
+        if ' '.join(str(k).split()) in seen:
+            continue
+        seen.add(' '.join(str(k).split()))
+        out.append([k, v])
+    return out
+
+
 def gen_mol_spec(rng, cfg, small=False):
     r = rng.random()
     if r < cfg.get('file_share', 0.3) and not small:
@@ -150,8 +161,8 @@ def gen_mol_spec(rng, cfg, small=False):
     if rng.random() < cfg.get('name_p', 0.6):
         spec['name'] = gen_text(rng, cfg.get('risky_p', 0.1), 40)
     if rng.random() < cfg.get('meta_p', 0.6):
-        spec['meta'] = [[gen_key(rng, cfg.get('risky_p', 0.1)), gen_value(rng, cfg.get('risky_p', 0.1), None, cfg.get('multiline_p', 0.0))]
-                        for _ in range(rng.choice([1, 1, 2, 3]))]
+        spec['meta'] = _distinct_keys([[gen_key(rng, cfg.get('risky_p', 0.1)), gen_value(rng, cfg.get('risky_p', 0.1), None, cfg.get('multiline_p', 0.0))]
+                                       for _ in range(rng.choice([1, 1, 2, 3]))])
     return spec
 
 
@@ -168,8 +179,8 @@ def gen_record_spec(rng, cfg, allow_rxn):
         if rng.random() < cfg.get('name_p', 0.6):
             spec['name'] = gen_text(rng, cfg.get('risky_p', 0.1), 40)
         if rng.random() < cfg.get('meta_p', 0.6):
-            spec['meta'] = [[gen_key(rng, cfg.get('risky_p', 0.1)), gen_value(rng, cfg.get('risky_p', 0.1), None, cfg.get('multiline_p', 0.0))]
-                            for _ in range(rng.choice([1, 2, 3]))]
+            spec['meta'] = _distinct_keys([[gen_key(rng, cfg.get('risky_p', 0.1)), gen_value(rng, cfg.get('risky_p', 0.1), None, cfg.get('multiline_p', 0.0))]
+                                           for _ in range(rng.choice([1, 2, 3]))])
         return spec
     return gen_mol_spec(rng, cfg)
 
@@ -196,7 +207,7 @@ def build_mol(spec):
         if 'name' in spec:
             m.name = spec['name']
         if spec.get('meta'):
-            for kk, v in spec['meta']:
+            for kk, v in _distinct_keys(spec['meta']):
                 m.meta[kk] = v
         return m
     if spec['k'] == 'file':
@@ -265,7 +276,7 @@ def build_mol(spec):
     if 'name' in spec:
         m.name = spec['name']
     if spec.get('meta'):
-        for k, v in spec['meta']:
+        for k, v in _distinct_keys(spec['meta']):
             m.meta[k] = v
     return m
 
@@ -304,7 +315,7 @@ def build_record(spec):
     if 'name' in spec:
         r.name = spec['name']
     if spec.get('meta'):
-        for k, v in spec['meta']:
+        for k, v in _distinct_keys(spec['meta']):
             r.meta[k] = v
     return r
 
@@ -362,6 +373,11 @@ def stereo_view(m):
             continue
         if any(atoms[x].atomic_number == 1 for t in (n, k) for x in m._bonds[t]):
             return None
+        if len(m._bonds[n]) > 3 or len(m._bonds[k]) > 3:
+            # an end with more than two substituents (hypervalent S / P): which of them the label refers to follows the storage
+            # order of the neighbours, there is no order-free way to state the configuration - not compared
+            excluded_bonds += 1
+            continue
         ea = min(x for x in (n0, n2) if x is not None)
         eb = min(x for x in (n1, n3) if x is not None)
         s = m._translate_cis_trans_sign(n, k, ea, eb)
